@@ -165,7 +165,8 @@ def r04c(P, R):
         if rec:
             a0 = {x[1] for x in pvg.atoms(rec[0]["args"][0]) if x[0] == "param"}
             a1 = {x[1] for x in pvg.atoms(rec[0]["args"][1]) if x[0] == "param"}
-            whole1 = rec[0]["args"][1].get("k") == "Path" and rec[0]["args"][1].get("name") == "expected_type"
+            a1n = rec[0]["args"][1]
+            whole1 = a1n.get("k") == "Path" and len(g.params) > 1 and a1n.get("local") == g.params[1].get("local")
             return "rec-strip-value" if whole1 else "rec-both"
         v = lit_value(body if body.get("k") != "BlockExpr" else (body["b"].get("tail") or {}))
         if v is False:
